@@ -1800,3 +1800,30 @@ def value_iter_rule(rep, F):
                     continue
                 rep.violation("VALUE-iter", "%s|%s" % k, "%s passes the entries of a value through `%s`: entries are left out of the result, so sums / differences / comparisons computed by the builder no longer cover every asset" % (F.key(base), c.to), {"file": fn.get("file"), "line": c.line})
     rep.floor("value arithmetic functions inspected", 40, n)
+
+
+def minada_whole_rule(rep, F):
+    """MINADA-whole: min_ada_for_output prices the whole output it was given"""
+    rep.rule("MINADA-whole", "utils::min_ada_for_output (the minimum every admission gate compares with: add_output, both collateral-return setters, the change packer) computes on the output it was given - MinOutputAdaCalculator::new receives the parameter itself - or, if it assembles a calculator from parts (new_empty + setters), it calls every setter: set_address, set_amount, set_plutus_data AND set_data_hash (an output carries its datum either inline or as a hash), set_script_ref. A part that is not carried over (a datum hash is 34 bytes) makes the minimum too low by coins_per_byte x size, and an under-funded output / collateral return is admitted")
+    import fieldflow as _ff
+    fid = find_fn(rep, F, "utils::min_ada_for_output")
+    if not fid:
+        return
+    fn = F.fns[fid]
+    org = _ff.Origins(F, fid)
+    rep.inst("MINADA-whole")
+    calls = F.calls(fid)
+    news = [c for c in calls if (c.to or "").endswith("MinOutputAdaCalculator::new")]
+    empt = [c for c in calls if (c.to or "").endswith("MinOutputAdaCalculator::new_empty")]
+    if news and not empt:
+        if not all("arg:1" in org.of_operand(fn["bbs"][c.bb]["t"][3][0]) for c in news):
+            rep.violation("MINADA-whole", "min_ada_for_output|other-output", "min_ada_for_output builds its calculator from an output that is not its parameter", {})
+        return
+    if empt:
+        setters = {(c.to or "").rsplit("::", 1)[-1] for c in calls if "MinOutputAdaCalculator::set_" in (c.to or "")}
+        need = {"set_address", "set_amount", "set_plutus_data", "set_data_hash", "set_script_ref"}
+        miss = sorted(need - setters)
+        if miss:
+            rep.violation("MINADA-whole", "min_ada_for_output|%s" % ",".join(miss), "min_ada_for_output assembles the priced output from parts and never calls %s: an output (or collateral return) carrying that part is priced without it - e.g. a datum hash: 34 bytes, 146 540 lovelace at 4 310 per byte - and admitted below its real minimum ADA" % ", ".join(miss), {})
+        return
+    rep.lost("min_ada_for_output no longer goes through MinOutputAdaCalculator (re-anchor MINADA-whole)")
